@@ -36,6 +36,7 @@ type Contract struct {
 	LoopInv     map[int][]Clause
 	Modifies    []Clause
 	Asserts     []Clause
+	Uses        []Clause
 	Cases       []caseSplit
 	Flags       map[string]bool
 	HintNames   []string
@@ -69,16 +70,30 @@ type Lemma struct {
 	Body   ast.Expr
 	Src    string
 	Props  []string
+	Reveal []string
+	File   string
+	Line   int
+}
+
+type RecDef struct {
+	Name     string
+	Params   []string
+	Kinds    []string
+	ResKind  string
+	Body     ast.Expr
+	Src      string
+	compiled bool
 }
 
 type ContractSet struct {
+	RecDefs   map[string]*RecDef
 	Contracts []*Contract
 	Macros    map[string]*Macro
 	MapInvs   map[string]*Macro
 	Lemmas    []*Lemma
 }
 
-var kwRe = regexp.MustCompile(`^(func|def|opaque|reveal|mapinv|lemma|assert|cases|props|circuit|plain|requires|ensures|honest|loop|modifies|flag|hint|sound_ensures|complete_ensures|sound_requires|complete_requires)\b`)
+var kwRe = regexp.MustCompile(`^(func|def|recdef|opaque|reveal|mapinv|lemma|assert|use|cases|props|circuit|plain|requires|ensures|honest|loop|modifies|flag|hint|sound_ensures|complete_ensures|sound_requires|complete_requires)\b`)
 
 func endsOpen(s string) bool {
 	s = strings.TrimSpace(s)
@@ -164,6 +179,15 @@ func ParseContractComments(pkgPath, file string, fset *token.FileSet, f *ast.Fil
 			}
 			m.Opaque = opq
 			cs.Macros[m.Name] = m
+		case strings.HasPrefix(t, "recdef "):
+			rd, err := parseRecDef(t[7:])
+			if err != nil {
+				return fail(err)
+			}
+			if cs.RecDefs == nil {
+				cs.RecDefs = map[string]*RecDef{}
+			}
+			cs.RecDefs[rd.Name] = rd
 		case strings.HasPrefix(t, "mapinv "):
 			m, err := parseDef(t[7:])
 			if err != nil {
@@ -194,6 +218,11 @@ func ParseContractComments(pkgPath, file string, fset *token.FileSet, f *ast.Fil
 			if strings.HasPrefix(t, "props ") && cur == nil && len(cs.Lemmas) > 0 {
 				l := cs.Lemmas[len(cs.Lemmas)-1]
 				l.Props = strings.Fields(t[6:])
+				continue
+			}
+			if strings.HasPrefix(t, "reveal ") && cur == nil && len(cs.Lemmas) > 0 {
+				l := cs.Lemmas[len(cs.Lemmas)-1]
+				l.Reveal = append(l.Reveal, strings.Fields(t[7:])...)
 				continue
 			}
 			if cur == nil {
@@ -328,6 +357,12 @@ func parseClause(c *Contract, t string, no int) error {
 		for _, fl := range strings.Fields(rest) {
 			c.Flags["reveal:"+fl] = true
 		}
+	case "use":
+		cl, err := mk("")
+		if err != nil {
+			return err
+		}
+		c.Uses = append(c.Uses, cl)
 	case "assert":
 		cl, err := mk("")
 		if err != nil {
@@ -384,4 +419,31 @@ func sortedKeys[V any](m map[string]V) []string {
 	}
 	sort.Strings(ks)
 	return ks
+}
+
+// parseRecDef parses `name(p kind, ...) kind = body`.
+func parseRecDef(s string) (*RecDef, error) {
+	lp := strings.Index(s, "(")
+	rp := strings.Index(s, ")")
+	if lp < 0 || rp < lp {
+		return nil, fmt.Errorf("bad recdef %q", s)
+	}
+	eq := rp + strings.Index(s[rp:], "=")
+	rd := &RecDef{Name: strings.TrimSpace(s[:lp]), ResKind: strings.TrimSpace(s[rp+1 : eq])}
+	for _, p := range strings.Split(s[lp+1:rp], ",") {
+		fs := strings.Fields(p)
+		if len(fs) != 2 {
+			return nil, fmt.Errorf("recdef parameter %q needs a kind", p)
+		}
+		rd.Params = append(rd.Params, fs[0])
+		rd.Kinds = append(rd.Kinds, fs[1])
+	}
+	body := strings.TrimSpace(s[eq+1:])
+	e, err := parseExprSrc(body)
+	if err != nil {
+		return nil, err
+	}
+	rd.Body = e
+	rd.Src = body
+	return rd, nil
 }
